@@ -26,7 +26,7 @@ RULE = (
     "(prefix, protocol, grid) hash"
 )
 ASSUMPTIONS = ["closed form via expm; dyadic times make index equality exact", "a protocol names the same parameters in every step (DataFrame semantics)"]
-N = {"quick": 400, "thorough": 8000}
+N = {"quick": 400, "thorough": 100000}
 MIN_NONTRIVIAL = {"quick": 80, "thorough": 1500}
 
 
